@@ -18,6 +18,8 @@ import (
 type World struct {
 	tags      []TagDecl
 	writers   []WritersDecl
+	confined  []ConfinedDecl
+	cw        *confineWorld
 	repo      string
 	fset      *token.FileSet
 	prog      *ssa.Program
@@ -54,7 +56,7 @@ func loadWorld(repo string, extraPatterns []string) (*World, error) {
 	w.fset = token.NewFileSet()
 	cfg := &packages.Config{Mode: packages.LoadAllSyntax, Dir: repo, BuildFlags: []string{"-tags=verif"}, Fset: w.fset,
 		Env: append(os.Environ(), "GOFLAGS=-mod=mod", "GOPROXY=off", "GOSUMDB=off", "GOTOOLCHAIN=local")}
-	pats := append([]string{"./internal/...", "./pkg/..."}, extraPatterns...)
+	pats := append([]string{"./internal/...", "./pkg/...", "./cmd/..."}, extraPatterns...)
 	pkgs, err := packages.Load(cfg, pats...)
 	if err != nil {
 		return nil, err
@@ -136,6 +138,7 @@ func (w *World) addSpec(sf *SpecFile) {
 	}
 	w.tags = append(w.tags, sf.Tags...)
 	w.writers = append(w.writers, sf.Writers...)
+	w.confined = append(w.confined, sf.Confined...)
 	w.axioms = append(w.axioms, sf.Axioms...)
 	for range sf.Axioms {
 		w.axiomPkg = append(w.axiomPkg, sf.PkgName)
@@ -618,7 +621,8 @@ func (w *World) writersObligations(prop string) *FuncResult {
 		if len(problems) > 0 {
 			goal = "false"
 		}
-		res.Obls = append(res.Obls, &Obl{Name: "writers{" + wd.Path + "}", Goal: goal, Kind: "writers", Fn: "field-writers", Prop: []string{prop}, Detail: strings.Join(problems, "; ")})
+		res.Obls = append(res.Obls, &Obl{Name: "writers{" + wd.Path + "}", Goal: goal, Kind: "writers", Fn: "field-writers", Prop: []string{prop}, Detail: strings.Join(problems, "; "),
+			Info: fmt.Sprintf("writers found: %s; allowed: %s", strings.Join(keys, ", "), strings.Join(wd.Allowed, ", "))})
 		res.Notes = append(res.Notes, "writers obligations are syntactic over go/ssa (stores through field addresses, escaping field addresses, whole-struct stores, map updates by map type); reflection and unsafe are not seen")
 	}
 	return res
